@@ -394,6 +394,42 @@ def hx4(F, R):
                       "the failure of the [u8; 8] conversion is not propagated as Err")
 
 
+# ---------------------------------------------------------------- HX6
+def hx6(F, R):
+    """Display and Debug of Hex write exactly print(): the text other modules embed (`{}` in the DOT export, in Debug of the
+    graph, in inspect) is the whole dash-separated byte string, not an abbreviation of it"""
+    n = 0
+    for tr in ("std::fmt::Display", "std::fmt::Debug"):
+        b = F.fn("Hex", "fmt", tr)
+        label = "Hex::fmt(%s)" % tr.split("::")[-1]
+        if b is None:
+            R.missing("HX6", label)
+            continue
+        raw = Collector(F, stop_names=("print", "bytes", "len")).collect(b)
+        R.analysed(b, len(raw))
+        writes = [e for e in raw if e.kind == "call" and e.args and strip_load(e.args[0]) == ("param", 2) and not e.exp]
+        ok = False
+        if len(writes) == 1 and writes[0].name in ("write_str", "pad") and len(writes[0].args) == 2:
+            a = strip_load(writes[0].args[1])
+            for _ in range(4):
+                if a[0] == "call" and a[1].split("::")[-1] in ("as_str", "deref", "as_ref", "borrow") and a[2]:
+                    a = strip_load(a[2][0])
+            ok = a[0] == "call" and a[1].endswith("::print") and "Hex" in a[1] and strip_load(a[2][0]) == ("param", 1) and \
+                writes[0].uncond and not [f for f in writes[0].facts if "Level" not in repr(f)]
+        # or: delegation to the other formatting trait of Hex
+        deleg = [e for e in raw if e.kind == "call" and e.name == "fmt" and "Hex" in (e.callee.get("gargs", "") + e.path) and
+                 e.args and strip_load(e.args[0]) == ("param", 1)]
+        n += 1
+        if ok or (len(deleg) == 1 and len(writes) <= 1 and deleg[0].uncond):
+            R.ok("HX6", b.where(), "%s writes exactly self.print()" % label)
+        else:
+            R.bad("HX6", "HX6/%s/not-exactly-print" % label, b.where(),
+                  "%s does not write exactly the text of print(): the form of the bytes that other modules embed (`{}`) is cut, "
+                  "decorated or conditional" % label,
+                  {"writes": [(e.name, show(e.args[1], b)[:120] if len(e.args) > 1 else None) for e in writes]})
+    R.floor("HX6", "formatting impls of Hex", n, 2)
+
+
 # ---------------------------------------------------------------- HX5
 def hx5(F, R):
     b = F.fn("Hex", "from_slice")
